@@ -135,6 +135,19 @@ theorem timer_roots_enqueue (t : Nat) (ht : t ∈ graph.timerRoots) :
   simp at hr; subst hr
   exact ⟨n, hn, hreach⟩
 
+/-- **utils/waterfall is inside the graph** (so the theorems above speak about it): the invocation points of a
+chain's steps and of its final callback are sites of the graph and lie on a consumer loop (members of `loopSites`,
+hence covered by `invocations_on_loop`); the completion callback that `waterfall.Sche` hands to the steps — which a
+step may call from ANY goroutine — is one of the graph's foreign goroutine roots (`timerRoots`), hence a forbidden
+root of `entry_only_via_loop` (it reaches no step / final callback except through `Sche.Post`) and covered by
+`timer_roots_enqueue` (it does reach a channel send).  Stated by kind / key, not by closure number. -/
+theorem waterfall_covered :
+    (∃ l ∈ graph.lits, l.1 ∈ graph.timerRoots ∧ l.1 ∈ forbiddenRoots graph ∧
+        graph.kinds.getD l.2 "" = "assigned:field waterfall.Chain.callbackFunc") ∧
+    (∃ s ∈ graph.sites, graph.keys.getD s.2 "" = "field waterfall.Chain.tasks[]" ∧ s.1 ∈ loopSites graph ∧ s.1 ∈ svcNodes graph) ∧
+    (∃ s ∈ graph.sites, graph.keys.getD s.2 "" = "field waterfall.Chain.final" ∧ s.1 ∈ loopSites graph ∧ s.1 ∈ svcNodes graph) := by
+  decide +kernel
+
 /-- non-vacuity of the graph theorems: there are spawned goroutines, service sites, consumer
 loops, timer goroutines, invocation points and posted closures in the generated graph -/
 example : (spawnedRoots graph).length ≥ 1 ∧ (svcNodes graph).length ≥ 5 ∧
@@ -171,5 +184,220 @@ theorem mini_timer_ok : entryCheck (miniTimer [] []) = true := by decide +kernel
 theorem mini_timer_mutations_fail :
     entryCheck (miniTimer [] [(2, 0)]) = false ∧
     entryCheck (miniTimer [(2, 3)] []) = false := by decide +kernel
+
+/-! ## `waterfall.Sche` chains on the loop -/
+section Waterfall
+open Cell2v.Waterfall
+
+/-- running a concatenated schedule -/
+theorem runL_append (cap : Nat) (b : Bool) (l1 l2 : List Lbl) : ∀ s, runL cap b s (l1 ++ l2) = (runL cap b s l1).bind (fun s' => runL cap b s' l2) := by
+  induction l1 with
+  | nil => intro s; simp [runL]
+  | cons l ls ih =>
+    intro s
+    simp only [List.cons_append, runL]
+    cases fire cap b s l with
+    | none => simp
+    | some s' => simp [ih]
+
+/-- the schedule a chain induces is enabled from every state in which the consumer is idle and the chain's item
+is the only one on the channel — for every number of steps, every list of completion reports (by any threads,
+with any error flags) and every capacity ≥ 1; by induction on the reports -/
+theorem waterfall_sched_enabled (cap : Nat) (hcap : 1 ≤ cap) (steps : Nat) (rs : List Report) :
+    ∀ (k : Nat) (s : St), s.running = none → s.q 0 = [k] → ∃ s', runL cap false s (sched steps k rs) = some s' := by
+  induction rs with
+  | nil =>
+    intro k s h1 h2
+    simp [sched, runL, fire, h1, h2]
+  | cons r rs ih =>
+    intro k s h1 h2
+    by_cases hk : k < steps
+    · obtain ⟨who, err⟩ := r
+      cases who with
+      | consumer =>
+        simp only [sched, hk, if_true]
+        rw [runL_append]
+        have : ∃ s1, runL cap false s [.pick 0, .henq 0 (next steps k err), .finish] = some s1 ∧ s1.running = none ∧ s1.q 0 = [next steps k err] := by
+          have hc : 0 < cap := hcap
+          simp [runL, fire, h1, h2, setQ, hc]
+        obtain ⟨s1, e1, r1, q1⟩ := this
+        rw [e1]
+        exact ih _ s1 r1 q1
+      | producer p =>
+        simp only [sched, hk, if_true]
+        rw [runL_append]
+        have : ∃ s1, runL cap false s [.pick 0, .finish, .enq p 0 (next steps k err)] = some s1 ∧ s1.running = none ∧ s1.q 0 = [next steps k err] := by
+          have hc : 0 < cap := hcap
+          simp [runL, fire, h1, h2, setQ, hc]
+        obtain ⟨s1, e1, r1, q1⟩ := this
+        rw [e1]
+        exact ih _ s1 r1 q1
+    · simp [sched, hk, runL, fire, h1, h2]
+
+/-- **a waterfall.Sche chain runs on the loop**: whoever starts the chain (`p`), however many steps it has, whichever
+threads report the completion of its steps (the consumer inline, or any producer — a worker goroutine) and whether
+they report success or failure, the induced schedule is a schedule of the loop model, its trace satisfies the
+monitor predicate, and every step and the final callback is started by the consumer. -/
+theorem waterfall_chain_on_loop (cap : Nat) (hcap : 1 ≤ cap) (steps : Nat) (rs : List Report) (p : Nat) :
+    ∃ s, runL cap false init (.enq p 0 0 :: sched steps 0 rs) = some s ∧ Serial s.trace = true ∧
+      ∀ w it, Ev.start w it ∈ s.trace → w = Thread.consumer := by
+  have hc : 0 < cap := hcap
+  have h0 : ∃ s0, fire cap false init (.enq p 0 0) = some s0 ∧ s0.running = none ∧ s0.q 0 = [0] := by
+    simp [fire, init, setQ, hc]
+  obtain ⟨s0, e0, r0, q0⟩ := h0
+  obtain ⟨s, es⟩ := waterfall_sched_enabled cap hcap steps rs 0 s0 r0 q0
+  have hr : Reachable cap s := ⟨.enq p 0 0 :: sched steps 0 rs, by simp [runL, e0, es]⟩
+  refine ⟨s, by simp [runL, e0, es], (handlers_serial cap s hr).2.2, ?_⟩
+  intro w it h
+  exact handlers_only_on_consumer cap s hr w it (Or.inl h)
+
+/-- non-vacuity / what it looks like: three steps; step 0 completed by worker 7, step 1 inline, step 2 reported as
+FAILED by worker 9: steps 0, 1, 2 and the failure final (item 4) all start on the consumer -/
+example : (runL 1 false init (.enq 5 0 0 :: sched 3 0 [⟨.producer 7, false⟩, ⟨.consumer, false⟩, ⟨.producer 9, true⟩])).map
+    (fun s => s.trace.filterMap fun e => match e with | .start w it => some (w, it) | _ => none) =
+    some [(Thread.consumer, 0), (Thread.consumer, 1), (Thread.consumer, 2), (Thread.consumer, 4)] := by decide
+
+/-- witness: the variant in which a worker that reports failure runs the final callback itself (no `Post` hop) is
+not serial — the final callback runs on the worker while the consumer is inside another piece. -/
+theorem waterfall_inline_final_breaks_serial :
+    ∃ ls s, runL 2 true init ls = some s ∧ Serial s.trace = false :=
+  ⟨[.enq 5 0 0, .enq 6 0 9, .pick 0, .finish, .pick 0, .direct 9 4], _, rfl, by decide⟩
+end Waterfall
+
+/-! ## whose timer callbacks a loop runs -/
+section TimerObj
+open Cell2v.TimerObj
+
+/-- one operation preserves the invariant -/
+theorem timer_good_step (s : TimerObj.St) (op : Op) (h : Good s) : Good (step s op) := by
+  obtain ⟨h1, h2⟩ := h
+  cases op with
+  | arm m c =>
+    refine ⟨?_, ?_⟩
+    · intro k a ha
+      have := h1 k a ha
+      have hne : a ≠ s.nobj := by omega
+      simp only [step, hne, if_false]
+      exact ⟨by omega, this.2⟩
+    · intro k c' hr
+      obtain ⟨a, ha, ho, hc⟩ := h2 k c' hr
+      have hne : a ≠ s.nobj := by omega
+      exact ⟨a, by simp only [step]; omega, by simp [step, hne, ho], by simp [step, hne, hc]⟩
+  | expire a =>
+    simp only [step]
+    split
+    · rename_i hc
+      simp only [Bool.and_eq_true, decide_eq_true_eq] at hc
+      refine ⟨?_, h2⟩
+      intro k x hx
+      simp only at hx
+      split at hx
+      · rename_i hk
+        rw [List.mem_append] at hx
+        rcases hx with hx | hx
+        · exact h1 k x hx
+        · simp at hx; subst hx; exact ⟨hc.1, hk.symm⟩
+      · exact h1 k x hx
+    · exact ⟨h1, h2⟩
+  | cancel a => exact ⟨h1, h2⟩
+  | doNext m =>
+    simp only [step]
+    split
+    · exact ⟨h1, h2⟩
+    · rename_i a rest hq
+      have hq1 : ∀ k x, x ∈ (if k = m then rest else s.queue k) → x < s.nobj ∧ s.owner x = k := by
+        intro k x hx
+        split at hx
+        · rename_i hk; subst hk; exact h1 k x (by rw [hq]; exact List.mem_cons_of_mem _ hx)
+        · exact h1 k x hx
+      split
+      · exact ⟨hq1, h2⟩
+      · refine ⟨hq1, ?_⟩
+        intro k c hr
+        simp only [List.mem_append, List.mem_singleton, Prod.mk.injEq] at hr
+        rcases hr with hr | ⟨rfl, rfl⟩
+        · exact h2 k c hr
+        · have := h1 k a (by rw [hq]; exact List.mem_cons_self ..)
+          exact ⟨a, this.1, this.2, rfl⟩
+
+/-- every operation sequence preserves the invariant (induction on the sequence) -/
+theorem timer_good_run (ops : List Op) : ∀ s : TimerObj.St, Good s → Good (run s ops) := by
+  induction ops with
+  | nil => intro s h; exact h
+  | cons o os ih => intro s h; exact ih _ (timer_good_step s o h)
+
+/-- **a loop runs only timer callbacks of its own manager**: for every sequence of arming, expiry (any time, any
+number of times), cancellation (also AFTER the expiry, while the object waits in the queue) and queue processing on
+any number of managers, whatever callback the loop of manager `m` runs was armed on `m`.  Rests on `NewTimerObj`
+allocating a fresh object each time (see the witness below). -/
+theorem timer_callbacks_on_owner (ops : List Op) (m c : Nat) (h : (m, c) ∈ (run {} ops).ran) :
+    ∃ a, a < (run {} ops).nobj ∧ (run {} ops).owner a = m ∧ (run {} ops).cb a = c :=
+  (timer_good_run ops {} ⟨by intro m a h; simp at h, by intro m c h; simp at h⟩).2 m c h
+
+/-- non-vacuity: manager 1's timer expires and is cancelled while it waits in the queue, manager 2's runs -/
+example : (run {} [.arm 1 10, .arm 2 20, .expire 0, .expire 1, .cancel 0, .doNext 1, .doNext 2]).ran = [(2, 20)] := by decide
+
+/-- `NewTimerObj` handing out an object that is still referenced (what a free-list / sync.Pool of timer objects does
+when `Cancel` frees unconditionally): address `a` gets a new owner, callback and a cleared flag -/
+def reuse (s : TimerObj.St) (a m c : Nat) : TimerObj.St :=
+  { s with owner := fun x => if x = a then m else s.owner x, cb := fun x => if x = a then c else s.cb x,
+           canceled := fun x => if x = a then false else s.canceled x }
+
+/-- witness: with object reuse the theorem fails — manager 1 cancels its expired timer (still in its queue), manager 2
+arms a timer and gets that object, manager 1's loop then runs manager 2's callback. -/
+theorem timer_obj_reuse_breaks_ownership :
+    (step (reuse (run {} [.arm 1 10, .expire 0, .cancel 0]) 0 2 20) (.doNext 1)).ran = [(1, 20)] := by decide
+end TimerObj
+
+/-! ## which loop drains which scheduler (`sche.Mgr.GetSche` by name) -/
+section ScheReg
+open Cell2v.ScheReg
+
+/-- **one loop per scheduler queue**: run services created (in any registry state) under pairwise distinct names
+that are not registered yet drain pairwise distinct, fresh schedulers — so each scheduler channel has exactly
+one consumer loop, which is the premise of the loop model above.  Unbounded: any number of services, any
+registry. -/
+theorem one_loop_per_scheduler (names : List String) : ∀ (r : Reg), names.Nodup → (∀ n ∈ names, find r.tab n = none) →
+    (spawnAll r names).Nodup ∧ ∀ id ∈ spawnAll r names, r.next ≤ id := by
+  induction names with
+  | nil => intro r _ _; simp [spawnAll]
+  | cons n ns ih =>
+    intro r hnd hfree
+    have hn : find r.tab n = none := hfree n (by simp)
+    have hget : r.getSche n = ({ tab := (n, r.next) :: r.tab, next := r.next + 1 }, r.next) := by
+      simp [Reg.getSche, hn]
+    rw [List.nodup_cons] at hnd
+    have hfree' : ∀ m ∈ ns, find ((n, r.next) :: r.tab) m = none := by
+      intro m hm
+      have hne : m ≠ n := fun h => hnd.1 (h ▸ hm)
+      simp [find, hne, hfree m (by simp [hm])]
+    obtain ⟨h1, h2⟩ := ih { tab := (n, r.next) :: r.tab, next := r.next + 1 } hnd.2 hfree'
+    simp only [spawnAll, hget]
+    refine ⟨?_, ?_⟩
+    · rw [List.nodup_cons]
+      refine ⟨fun hmem => ?_, h1⟩
+      have := h2 _ hmem
+      simp at this
+      omega
+    · intro id hid
+      rw [List.mem_cons] at hid
+      rcases hid with rfl | hid
+      · exact Nat.le_refl _
+      · have := h2 _ hid
+        simp at this
+        omega
+
+/-- from the empty registry: distinct names ⇒ distinct schedulers -/
+theorem distinct_names_distinct_schedulers (names : List String) (h : names.Nodup) : (spawnAll {} names).Nodup :=
+  (one_loop_per_scheduler names {} h (by intro n _; rfl)).1
+
+/-- non-vacuity -/
+example : spawnAll {} ["gate", "chat", "rs1"] = [0, 1, 2] := by decide
+
+/-- witness (reproduced on the real code, see the check's assumptions): two run services created with the SAME
+non-empty name get the same scheduler, i.e. two loop goroutines drain one channel — the hypothesis `Nodup` of
+`one_loop_per_scheduler` cannot be dropped. -/
+theorem same_name_shares_scheduler : spawnAll {} ["gate", "gate"] = [0, 0] := by decide
+end ScheReg
 
 end Cell2v.Props.C04
